@@ -56,6 +56,9 @@ pub struct Sched {
     pub seq: AtomicU64,
 }
 
+/// true = file writes of the managed threads are scheduling points as well (set by a stage for its own runs)
+pub static SYSCALL_POINTS: std::sync::atomic::AtomicBool = std::sync::atomic::AtomicBool::new(false);
+
 thread_local! {
     static TICKS: std::cell::RefCell<Vec<u64>> = std::cell::RefCell::new(vec![]);
 }
@@ -213,6 +216,7 @@ pub fn run_once<R: Send + 'static>(
     for (tid, body) in bodies.into_iter().enumerate() {
         let sched2 = sched.clone();
         let ctx2 = ctx.clone();
+        let ctx_dir = ctx.dir.clone();
         handles.push(
             std::thread::Builder::new()
                 .name(format!("ilv-{}", tid))
@@ -220,8 +224,15 @@ pub fn run_once<R: Send + 'static>(
                     sched2.threads.lock().unwrap()[tid] = Some(std::thread::current());
                     let hooks = Arc::new(ThreadHooks { sched: sched2.clone(), tid, inner: ctx2 });
                     verif_hooks::install_thread(Some(hooks as Arc<dyn Hooks>));
+                    if SYSCALL_POINTS.load(std::sync::atomic::Ordering::SeqCst) {
+                        // every mutating system call on the node's directory is a scheduling point too
+                        let sched3 = sched2.clone();
+                        let dir = ctx_dir.clone();
+                        crate::crash::set_syscall_yield(Some((dir, Box::new(move |_what: &str| sched3.point(tid, Pending::Yield("file-write"))))));
+                    }
                     sched2.point(tid, Pending::Start);
                     let r = std::panic::catch_unwind(std::panic::AssertUnwindSafe(|| body(&sched2)));
+                    crate::crash::set_syscall_yield(None);
                     verif_hooks::install_thread(None);
                     sched2.finish(tid);
                     r.ok()
